@@ -19,8 +19,10 @@ far as it is TRUE.  Helper files: `Proofs/SearchRepDeep{Inv,Node,Root,Hash}.lean
    `repSearch d b0 ucis []` and the announced move attains it — under the explicit, decidable hypotheses `RHyp b0 T d`.  Besides the
    hash hypotheses of depth 1 (non-zero hashes, no collision of a node with the positions of its line inside the window, now for all
    nodes of the `d`-ply tree) there is ONE hypothesis of a new kind, `RHashInj b0 T d`: a node at which the search stores and a node
-   at which it probes that have the same hash stand at the same ply, show the same position AND HAVE THE SAME LINE INSIDE THE WINDOW of
-   the repetition test (the keys of the last `halfmove` positions: `mm_rep_window` – older positions are never compared again).
+   at which it probes that have the same hash stand at the same ply, show the same position AND HAVE THE SAME VALUES `mm repGame draft`
+   for every draft the table can hold there.  Sufficient and executable (`rhashInj_of_window`, `injB`): their lines have THE SAME
+   KEYS INSIDE THE WINDOW of the repetition test (the last `halfmove` positions: `mm_rep_window` – older positions are never compared
+   with anything again).
 3. `rhashInj_le3`, `go_depth2_eq_repSpec`, `go_depth3_eq_repSpec` (and `go_depth_le3_eq_repSpec`) – for `d ≤ 3` that hypothesis is a
    THEOREM.  `go depth 2` (resp. 3) after a game reports `scoreFromValue (mm repGame d root)` and plays a move attaining it, under
    `DeepHyp`: no hash collision in the ≤ d-ply neighbourhood (`NoCollision`), non-zero hashes, no collision of a node with its line
@@ -35,7 +37,7 @@ far as it is TRUE.  Helper files: `Proofs/SearchRepDeep{Inv,Node,Root,Hash}.lean
    and no stored node has their position (`sameDraft_le3`).
 4. For `d ≥ 4` `RHashInj` is a genuine restriction: it fails wherever two move orders transpose inside the window or a cycle returns
    to a stored position (`Example`: the king-and-queen shuffle at depth 4).  Often the value still agrees; `Props/C10DeepGhi.lean`
-   shows a game on which at depth 5 it does NOT (`ghi_witness`) while the same position without history agrees: graph-history
+   shows a game on which at depth 5 it does NOT (`ghiWitness`) while the same position without history agrees: graph-history
    interaction – a precise reason why the exactness claim of the property cannot extend to arbitrary depth.
 -/
 namespace Inkayaku.C10Deep
@@ -204,6 +206,14 @@ def agreesDeep (d : Nat) (b0 : Board) (ucis : List String) : Bool :=
 #guard agreesDeep 2 perp ["f8f7", "h7h8", "f7f8", "h8h7", "f8f7", "h7h8"]
 #guard agreesDeep 3 perp ["f8f7", "h7h8", "f7f8", "h8h7", "f8f7"]
 #guard RepSpec.handleRepSearch ["5Q2/7k/q7/8/1r6/8/2P4K/8_w_-_-_0_40", "3", "f8f7", "h7h8", "f7f8", "h8h7", "f8f7"] == "cp50 cp-100"
+-- a transposition TWO plies below the root: `Ne4xd6+ e7xd6` and `Ne4xf6+ e7xf6` reach one position over lines with different keys;
+-- the entry of that ply-2 node is line independent all the same (`rhashInj_le3`), the hypotheses of depth 3 hold, the values agree
+def knightFork : Board := boardOf "4k3/4p3/3p1p2/8/4N3/8/8/4K3 w - - 0 1"
+#guard (let A := (gameBoards knightFork ["e4d6", "e7d6"]).getD []
+        let B := (gameBoards knightFork ["e4f6", "e7f6"]).getD []
+        A.length == 3 && B.length == 3 && decide (vis (A.getLastD kq) = vis (B.getLastD kq)) &&
+        A.dropLast.map key != B.dropLast.map key)
+#guard deepHypB knightFork [] [] 3 && agreesDeep 3 knightFork [] && agreesDeep 3 knightFork ["e1d1", "e8d8", "d1e1", "d8e8"]
 -- at depth 4 the hypothesis `RHashInj kq kqT 4` fails: `Kg7-f7 Qb1-b2 Kf7-e7` and `Kg7-f8 Qb1-b2 Kf8-e7` reach one position three
 -- plies below the root over lines with different keys inside the window (the clock is 10: no capture, no pawn move) …
 #guard (let A := (gameBoards kqLast ["g7f7", "b1b2", "f7e7"]).getD []
@@ -215,5 +225,21 @@ def agreesDeep (d : Nat) (b0 : Board) (ucis : List String) : Bool :=
 #guard agreesRep 4 kq shuffle
 
 end Example
+
+/-
+STATUS of the TARGET of `Props/C10Search.lean` / `Props/C10Rep.lean` ("the end-to-end value of `go depth d`, d ≥ 2, with a game history"):
+
+* d = 2, d = 3: PROVED (`go_depth2_eq_repSpec`, `go_depth3_eq_repSpec`), from hash hypotheses only (`DeepHyp`: no collision, non-zero
+  hashes – finite, decidable sets, evaluated above) and the guards on clocks and material.
+* every d: PROVED under the additional decidable hypothesis `RHashInj b0 T d` (`go_depth_eq_repSpec`; executable sufficient form
+  `injB`: a stored and a probed node with one hash stand at one ply, show one position and have the same keys inside the window).
+* d ≥ 4 without that hypothesis: FALSE in general – `Props/C10DeepGhi.lean` (`ghiWitness`, `not_rhashInj`): a perpetual-check game on
+  which `go depth 5` reports `cp -75` where the specification says `cp 0`, although the position without its history gives `cp -75`
+  in both: the root entry of iteration 4 is used for the root position reached again at ply 4, where one more occurrence of the
+  position below it has to be counted.  (At depth 4 the search model also deviates from `mm repGame` on some games, but there the
+  position without history deviates as well – the draft effect `stored ≥ remaining` that limits C08 to depth 3.)
+Not proved (and not provable here): the hash hypotheses themselves; they are hypotheses of every theorem that identifies positions
+by a 64-bit key.
+-/
 
 end Inkayaku.C10Deep
